@@ -26,6 +26,9 @@ TOPOLOGIES = {
     # three-stage chain: trough -> launcher -> one-ball staging device -> playfield
     "t7": {"machine": "balls_t7", "trough": "bd_trough", "trough_switches": ["s_trough1", "s_trough2", "s_trough3", "s_trough4"],
            "pf_switches": ["s_pf1", "s_pf2"], "locks": [], "manual": []},
+    # trough -> two-ball launcher -> playfield (the source may have to wait for the target's own eject to finish)
+    "t8": {"machine": "balls_t8", "trough": "bd_trough", "trough_switches": ["s_trough1", "s_trough2", "s_trough3", "s_trough4"],
+           "pf_switches": ["s_pf1", "s_pf2"], "locks": [], "manual": []},
     # two independent feeds (trough+plunger each) into one playfield
     "t6": {"machine": "balls_t6", "trough": "bd_trough", "trough_b": "bd_trough_b", "plunger_b": "bd_plunger_b",
            "trough_switches": ["s_trough1", "s_trough2", "s_troughb1", "s_troughb2"],
@@ -74,7 +77,7 @@ def plan(ch, tier):
         ops.append({"op": k, "dt": ch.pick("dt", [0.5, 0.0, 0.05, 0.3, 1.0, 2.0, 2.1, 3.1, 5.0, 12.0]), "pick": ch.choice("pick", 3)})
     patches = {"game": {"balls_per_game": ch.pick("bpg", [1, 2, 3])}}
     # reactive requests: another ball is requested a moment after some device kicked (while its ball is under way)
-    chain = topo in ("t7", "t2", "t3")      # devices that feed another device which ejects onwards
+    chain = topo in ("t7", "t2", "t3", "t8")      # devices that feed another device which ejects onwards
     react = {"on": ch.flag("react_add", 0.6 if chain else 0.3), "delay": ch.pick("react_delay", [0.2, 0.1, 0.5, 1.0]),
              "max": 1 + ch.choice("react_max", 3)}
     if chain and react["on"]:
@@ -102,6 +105,11 @@ def execute(ctx, plan, prop):
     pf = m.playfield
 
     def viol(rule, sig, msg):
+        if prop == "C05" and world.ambiguous_reentries and rule in ("never_rests", "request_not_served", "device_not_idle"):
+            # liveness is judged on what MPF can know: after an ambiguous re-entry its belief about who owes whom a
+            # ball may legitimately differ from the world (counted under probe liveness_not_judged_ambiguous)
+            ctx.probe("liveness_not_judged_ambiguous")
+            return
         if rule in rules:
             if prop == "C05" and world.exact_late_arrivals and rule in ("device_not_idle", "request_not_served", "never_rests"):
                 # own class: a late ball was counted in its target in the very instant the source gave it up for lost
@@ -113,7 +121,10 @@ def execute(ctx, plan, prop):
     # ---- in-run invariants (every posted event is a sampling point) -------------------------------
     def sample(*_a):
         for d in devices:
-            if d.balls < 0 or d.available_balls < 0:
+            # re-entry ambiguity (see below) also covers the bookkeeping of balls promised to requests: once MPF has
+            # booked another ball's entry as its own ejected ball coming back, available_balls of that device may be
+            # off; its physical count (balls) is still judged
+            if d.balls < 0 or (d.available_balls < 0 and d.name not in world.ambiguous_devs):
                 viol("count_negative", d.name, "%s: balls=%d available_balls=%d counted=%d state=%s at %.3f (event %s)" % (d.name, d.balls, d.available_balls, d.counted_balls, d.state, sim.now, "after callback"))
             if d.balls > d.capacity:
                 viol("count_above_capacity", d.name, "%s: balls=%d capacity=%d at %.3f" % (d.name, d.balls, d.capacity, sim.now))
